@@ -30,13 +30,26 @@ impl StripSuffixPartialDecoder {
     }
 }
 
+/// The byte ranges to request from the input: a suffix of the decoded value ends `suffix_size` bytes
+/// before the end of the encoded value, so it is requested together with the suffix (stripped afterwards).
+fn input_regions(decoded_regions: &[ByteRange], suffix_size: usize) -> Vec<ByteRange> {
+    decoded_regions
+        .iter()
+        .map(|byte_range| match byte_range {
+            ByteRange::Suffix(length) => ByteRange::Suffix(length + suffix_size as u64),
+            ByteRange::FromStart(_, _) => *byte_range,
+        })
+        .collect()
+}
+
 impl BytesPartialDecoderTraits for StripSuffixPartialDecoder {
     fn partial_decode(
         &self,
         decoded_regions: &[ByteRange],
         options: &CodecOptions,
     ) -> Result<Option<Vec<RawBytes<'_>>>, CodecError> {
-        let bytes = self.input_handle.partial_decode(decoded_regions, options)?;
+        let input_regions = input_regions(decoded_regions, self.suffix_size);
+        let bytes = self.input_handle.partial_decode(&input_regions, options)?;
         let Some(bytes) = bytes else {
             return Ok(None);
         };
@@ -92,9 +105,10 @@ impl AsyncBytesPartialDecoderTraits for AsyncStripSuffixPartialDecoder {
         decoded_regions: &[ByteRange],
         options: &CodecOptions,
     ) -> Result<Option<Vec<RawBytes<'_>>>, CodecError> {
+        let input_regions = input_regions(decoded_regions, self.suffix_size);
         let bytes = self
             .input_handle
-            .partial_decode(decoded_regions, options)
+            .partial_decode(&input_regions, options)
             .await?;
         let Some(bytes) = bytes else {
             return Ok(None);
